@@ -230,6 +230,64 @@ def _repr(I, x):
     return '<repr>'
 
 
+@reg('c_mod')
+def _c_mod(I, a, b):
+    """C remainder (sign of the dividend): what `%` means under Cython's cdivision(True)"""
+    a, b = I._num(a), I._num(b)
+    if isinstance(a, int) and isinstance(b, int):
+        if b == 0:
+            raise PyRaise('ZeroDivisionError')
+        return abs(a) % abs(b) * (1 if a >= 0 else -1)
+    za, zb = to_z3(a), to_z3(b)
+    if not I.spec_mode and I.branch(zb == 0):
+        raise PyRaise('ZeroDivisionError')     # undefined behaviour in C
+    ab = z3.If(zb < 0, -zb, zb)
+    return z3.If(za >= 0, za % ab, -((-za) % ab))
+
+
+def _c_mod_term(za, zb):
+    ab = z3.If(zb < 0, -zb, zb)
+    return z3.If(za >= 0, za % ab, -((-za) % ab))
+
+
+@reg('cmod_python')
+def _cmod_python(I, a, m):
+    """PROVED lemma (not assumed): for m >= 1, C's remainder corrected by `if q < 0: q += m` is Python's a % m.
+    The closed statement over fresh variables is added as an obligation without path condition (nonlinear integer
+    arithmetic: discharged by cvc5); the instance for (a, m) is returned for use on the current path."""
+    from .interp import Obligation
+    def stmt(x, y):
+        cm = _c_mod_term(x, y)
+        return z3.Implies(y >= 1, z3.If(cm < 0, cm + y, cm) == Interp.pymod(x, y))
+    x, y = z3.Int('lemma!a'), z3.Int('lemma!m')
+    I.n_oblig += 1
+    I.obligs.append(Obligation(f'{I.qual}#lemma:cmod_python', [], stmt(x, y), 'lemma',
+                               {'clause': 'forall a, m >= 1: (c_mod(a, m) + m if c_mod(a, m) < 0 else c_mod(a, m)) == a % m'}))
+    return stmt(to_z3(a), to_z3(m))
+
+
+@reg('c_div')
+def _c_div(I, a, b):
+    """C integer division (truncation towards zero): what `//` means under Cython's cdivision(True)"""
+    a, b = I._num(a), I._num(b)
+    if isinstance(a, int) and isinstance(b, int):
+        if b == 0:
+            raise PyRaise('ZeroDivisionError')
+        return abs(a) // abs(b) * (1 if (a >= 0) == (b > 0) else -1)
+    za, zb = to_z3(a), to_z3(b)
+    if not I.spec_mode and I.branch(zb == 0):
+        raise PyRaise('ZeroDivisionError')
+    aa, ab = z3.If(za < 0, -za, za), z3.If(zb < 0, -zb, zb)
+    return z3.If((za >= 0) == (zb > 0), aa / ab, -(aa / ab))
+
+
+@reg('_cstruct')
+def _cstruct(I):
+    """a C struct local of an extracted .pyx function: a record with assignable fields"""
+    from .values import SObj
+    return SObj('cstruct', None, {})
+
+
 @reg('abs')
 def _abs(I, x):
     x = I._num(x)
@@ -538,6 +596,35 @@ def _sum_unfold(I, arr, lo, hi):
                   z3.Implies(hi > lo, f(a, lo, hi) == f(a, lo, hi - 1) + z3.Select(a, hi - 1)))
 
 
+@reg('sum_mono')
+def _sum_mono(I, arr, lo, mid, hi):
+    """PROVED lemma (induction on hi, both cases are obligations of this run, over fresh symbols and with the defining
+    unfolding of the specification sum as only hypothesis):
+        lo <= mid <= hi  and  arr[k] >= 0 for mid <= k < hi   ==>   sum(arr, lo, mid) <= sum(arr, lo, hi)"""
+    from .interp import Obligation
+    if isinstance(arr, list):
+        arr = I.list_to_arr(arr)
+    f = sum_fn(arr.kind)
+    srt = kind_sort(arr.kind)
+    zero = to_z3(0, srt)
+
+    def nonneg(a, m, h):
+        k = z3.Int('k!mono')
+        return z3.ForAll([k], z3.Implies(z3.And(m <= k, k < h), z3.Select(a, k) >= zero))
+
+    def P(a, l, m, h):
+        return z3.Implies(z3.And(l <= m, m <= h, nonneg(a, m, h)), f(a, l, m) <= f(a, l, h))
+    a = z3.Const('lemma!arr', z3.ArraySort(z3.IntSort(), srt))
+    l, m, h = z3.Int('lemma!lo'), z3.Int('lemma!mid'), z3.Int('lemma!hi')
+    unfold = z3.Implies(h + 1 > l, f(a, l, h + 1) == f(a, l, h) + z3.Select(a, h))      # definition of the sum at h + 1
+    I.n_oblig += 2
+    I.obligs.append(Obligation(f'{I.qual}#lemma:sum_mono-base', [], P(a, l, m, m), 'lemma',
+                               {'clause': 'sum(a, lo, mid) <= sum(a, lo, mid)'}))
+    I.obligs.append(Obligation(f'{I.qual}#lemma:sum_mono-step', [], z3.Implies(z3.And(m <= h, unfold, P(a, l, m, h)), P(a, l, m, h + 1)),
+                               'lemma', {'clause': 'induction step hi -> hi + 1 of: nonnegative entries on [mid, hi) => sum(a, lo, mid) <= sum(a, lo, hi)'}))
+    return P(arr.leaves[0], to_z3(lo), to_z3(mid), to_z3(hi))
+
+
 @reg('seg_weight')
 def _seg_weight(I, ST, d, parity):
     """sum of d[j] over the entries (j, k) of the schedule ST with k == parity; for a segmented list
@@ -687,6 +774,13 @@ def method_of(I, obj, name):
                 obj.leaves = [z3.Store(l, to_z3(obj.n), e) for l, e in zip(obj.leaves, fl)]
                 obj.n = I.binop(ast.Add(), obj.n, 1)
             return mk(append)
+        if name == 'push_back' and not obj.np:
+            # assumed contract of C++ std::vector<T>::push_back: appends a *copy* of the struct
+            def push_back(v):
+                if isinstance(v, SObj) and v.cls == 'cstruct':
+                    v = tuple(v.attrs[k] for k in ('first', 'second') if k in v.attrs) if 'first' in v.attrs else tuple(v.attrs.values())
+                return method_of(I, obj, 'append').fn(I, v)
+            return mk(push_back)
         if name == 'pop' and not obj.np:
             def pop(i=-1):
                 v = I.arr_getitem(obj, i)
